@@ -102,6 +102,17 @@ public:
         return vegas_refine_pdf(results.back().pdf(), alpha_, results.back().adjustment_data());
     }
 
+    void rollback(std::size_t iteration) override
+    {
+        // a checkpoint read from a stream only knows the first PDF through its first result
+        if ((iteration == 0) && !this->results().empty())
+        {
+            pdf_.assign(1, this->results().front().pdf());
+        }
+
+        chkpt<vegas_result<T>>::rollback(iteration);
+    }
+
     void serialize(std::ostream& out) const override
     {
         chkpt<vegas_result<T>>::serialize(out);
